@@ -10,8 +10,17 @@ mkdir -p /tmp/wtm /verif/seeded/$sid
 git -C /repo worktree add -q --detach "$wt" HEAD || exit 2
 head=$(git -C /repo rev-parse --short HEAD)
 cp "$demo" "$wt/_demo.py"
+if [ "${WITH_RUST:-0}" = 1 ] || grep -q '^diff --git a/rust' "$patch"; then
+  ov0=$(/verif/tools/build_rust.sh "$wt" | tail -1); cp "$ov0"/solvor/_solvor_rust*.so "$wt/solvor/" 2>/dev/null
+fi
 ( cd "$wt" && /venv/bin/python _demo.py >/tmp/wtm/$sid.demo0 2>&1 ); demo_clean=$?
 if ! git -C "$wt" apply "$patch"; then echo "SEED $sid PATCH-DOES-NOT-APPLY"; git -C /repo worktree remove --force "$wt"; exit 2; fi
+if [ "${WITH_RUST:-0}" = 1 ] || grep -q '^diff --git a/rust' "$patch"; then
+  # changes on the Rust side: build the extension from the changed crate into the worktree so that the suite and the
+  # demonstration exercise it (in a plain worktree the .so is absent and the Rust tests are skipped)
+  ov=$(/verif/tools/build_rust.sh "$wt" | tail -1)
+  cp "$ov"/solvor/_solvor_rust*.so "$wt/solvor/" 2>/dev/null
+fi
 ( cd "$wt" && /venv/bin/python _demo.py >/tmp/wtm/$sid.demo1 2>&1 ); demo_mut=$?
 suite=$(cd "$wt" && /venv/bin/python -m pytest -q -p no:cacheprovider --timeout=900 -n ${NPROC:-6} --no-cov --deselect tests/test_docs.py::test_mkdocs_builds 2>&1 | tail -1)
 results=""
@@ -19,7 +28,10 @@ cd /verif
 for pid in "$@"; do
   out=$(SOLVOR_REPO=$wt VERIF_SCRATCH_EVIDENCE=/var/tmp/solvor-verif/mut-evidence/$sid ./check $pid --tier ${TIER:-quick} 2>&1); rc=$?
   first=$(echo "$out" | grep -m1 -B1 '^VIOLATION' | head -1 | cut -c1-300 | tr '"' "'")
-  results="$results{\"check\":\"$pid\",\"tier\":\"${TIER:-quick}\",\"exit\":$rc,\"first_violation\":\"$first\"},"
+  rp=$(echo "$out" | grep -m1 '^VIOLATION' | sed 's/.*replay=//')
+  rrc=null
+  if [ -n "$rp" ]; then SOLVOR_REPO=$wt ./check $pid --replay "$rp" >/dev/null 2>&1; rrc=$?; fi
+  results="$results{\"check\":\"$pid\",\"tier\":\"${TIER:-quick}\",\"exit\":$rc,\"replay_exit_on_changed_tree\":$rrc,\"first_violation\":\"$first\"},"
 done
 git -C /repo worktree remove --force "$wt"
 cp "$patch" /verif/seeded/$sid/patch.diff; cp "$demo" /verif/seeded/$sid/demo.py
